@@ -32,9 +32,9 @@ static void run(unsigned accpat) {
   vp_init(1);
   for (int s = 0; s < NOPS; s++) {
     int op = ops[s];
-    if (op == 1) { int v = (int)vp_nd(); VP_ASSERT(vp_put0(v), "queueing port rejected a put"); a[na++] = v; }
+    if (op == 1) { int v = (int)vp_nd(); VP_ASSERT(vp_put0(v), "queueing port rejected a put"); a[na++] = v; }   /* (last_rejected stays: the front tuple is unchanged or was incomplete) */
     else if (op == 2) { int v = (int)vp_nd(); VP_ASSERT(vp_put1(v), "queueing port rejected a put"); b[nb++] = v; }
-    else if (op == 6) { if (!bag_n) return; run_one(); }
+    else if (op == 6) { if (!bag_n) continue; run_one(); }
     else if (op == 7) { int x = 0, y = 0; unsigned r = vp_get(&x, &y);
       VP_ASSERT(r == (unsigned)(e < na && e < nb), "try_get: succeeds iff a complete tuple is pending");
       if (r) { handed(x, y); e++; last_rejected = 0; waive = 1; } }
